@@ -143,7 +143,8 @@ impl<'a, F> Entries<'a, F> {
         let mut entries = Entries { order, minialloc, stack: Vec::new() };
         match order {
             EntriesOrder::Nonrecursive => {
-                entries.stack_left_spine(&parent_path, start);
+                let minialloc = minialloc.read().unwrap();
+                entries.stack_left_spine(&minialloc, &parent_path, start);
             }
             EntriesOrder::Preorder => {
                 entries.stack.push((parent_path, start, false));
@@ -152,8 +153,16 @@ impl<'a, F> Entries<'a, F> {
         entries
     }
 
-    fn stack_left_spine(&mut self, parent_path: &Path, mut current_id: u32) {
-        let minialloc = self.minialloc.read().unwrap();
+    // This takes the (already locked) MiniAllocator rather than locking it
+    // itself, because `next()` calls it while holding the read lock, and
+    // acquiring a read lock again on the same thread can deadlock if a writer
+    // is waiting for the lock in the meantime.
+    fn stack_left_spine(
+        &mut self,
+        minialloc: &MiniAllocator<F>,
+        parent_path: &Path,
+        mut current_id: u32,
+    ) {
         while current_id != consts::NO_STREAM {
             self.stack.push((parent_path.to_path_buf(), current_id, true));
             current_id = minialloc.dir_entry(current_id).left_sibling;
@@ -166,17 +175,22 @@ impl<'a, F> Iterator for Entries<'a, F> {
 
     fn next(&mut self) -> Option<Entry> {
         if let Some((parent, stream_id, visit_siblings)) = self.stack.pop() {
-            let minialloc = self.minialloc.read().unwrap();
+            let lock = self.minialloc;
+            let minialloc = lock.read().unwrap();
             let dir_entry = minialloc.dir_entry(stream_id);
             let path = join_path(&parent, dir_entry);
             if visit_siblings {
-                self.stack_left_spine(&parent, dir_entry.right_sibling);
+                self.stack_left_spine(
+                    &minialloc,
+                    &parent,
+                    dir_entry.right_sibling,
+                );
             }
             if self.order == EntriesOrder::Preorder
                 && dir_entry.obj_type != ObjType::Stream
                 && dir_entry.child != consts::NO_STREAM
             {
-                self.stack_left_spine(&path, dir_entry.child);
+                self.stack_left_spine(&minialloc, &path, dir_entry.child);
             }
             Some(Entry::new(dir_entry, path))
         } else {
